@@ -54,12 +54,15 @@ type C19Scenario struct {
 	// has passed, so the records have been flushed to the swamp file (delete and update take the on-disk branches).
 	Persisted bool `json:"persisted,omitempty"`
 	// Anchor: a record that is never deleted is written before the case starts (the swamp never becomes empty).
-	Anchor  bool         `json:"anchor,omitempty"`
-	InMem   bool         `json:"in_mem,omitempty"`
-	NKeys   int          `json:"nkeys"`
-	Writers [][]C19Op    `json:"writers"`
-	Subs    []C19Sub     `json:"subs"`
-	Plan    []PlanAction `json:"plan,omitempty"`
+	Anchor bool `json:"anchor,omitempty"`
+	InMem  bool `json:"in_mem,omitempty"`
+	// Immediate: persistent swamp with write interval 0 (immediate-write mode: SaveFunction releases the record guard itself
+	// and writes + fsyncs the swamp file before it returns). Ignored when InMem.
+	Immediate bool         `json:"immediate,omitempty"`
+	NKeys     int          `json:"nkeys"`
+	Writers   [][]C19Op    `json:"writers"`
+	Subs      []C19Sub     `json:"subs"`
+	Plan      []PlanAction `json:"plan,omitempty"`
 }
 
 // ---------------------------------------------------------------------------
@@ -83,6 +86,7 @@ func getEnv() *c19env {
 		r := rig.New(rig.Options{Patterns: []rig.Pattern{
 			{Pattern: "c19p/*/*", CloseAfterIdleSec: 600, WriteIntervalSec: 1},
 			{Pattern: "c19m/*/*", CloseAfterIdleSec: 600, InMemory: true},
+			{Pattern: "c19z/*/*", CloseAfterIdleSec: 600, WriteIntervalSec: 0},
 		}})
 		theEnv = &c19env{r: r, cl: r.Serve()}
 	}
@@ -186,7 +190,7 @@ func (cr *caseRun) doSet(writer, seq int, opName, key string, v value, overwrite
 	} else {
 		kv.BytesVal = docBytes(v.T, v.U)
 	}
-	ctx, cancel := context.WithTimeout(context.Background(), rpcTimeout)
+	ctx, cancel := context.WithTimeout(context.Background(), pbt.Bound(rpcTimeout))
 	defer cancel()
 	call := time.Now()
 	resp, err := cr.e.cl.Set(ctx, cr.setReq(key, kv, overwrite))
@@ -267,7 +271,7 @@ func (cr *caseRun) writer(w int, prog []C19Op) {
 				req.CreateIfNotExist = true
 				req.InitialMsgpackOnCreate = docBytes(tag, tag+"-seed")[2:]
 			}
-			ctx, cancel := context.WithTimeout(context.Background(), rpcTimeout)
+			ctx, cancel := context.WithTimeout(context.Background(), pbt.Bound(rpcTimeout))
 			call := time.Now()
 			resp, err := cr.e.cl.PatchTreasures(ctx, req)
 			ret := time.Now()
@@ -291,7 +295,7 @@ func (cr *caseRun) writer(w int, prog []C19Op) {
 				cr.rpcErr.CompareAndSwap(nil, fmt.Sprintf("%s: unexpected PatchTreasures acknowledgement %v", name, resp))
 			}
 		case "inc":
-			ctx, cancel := context.WithTimeout(context.Background(), rpcTimeout)
+			ctx, cancel := context.WithTimeout(context.Background(), pbt.Bound(rpcTimeout))
 			call := time.Now()
 			resp, err := cr.e.cl.IncrementInt64(ctx, &hydrapb.IncrementInt64Request{IslandID: cr.island, SwampName: cr.sw, Key: key, IncrementBy: op.Delta})
 			ret := time.Now()
@@ -315,7 +319,7 @@ func (cr *caseRun) writer(w int, prog []C19Op) {
 				keys = append(keys, keyName(k))
 			}
 			name = fmt.Sprintf("del(%s)", strings.Join(keys, ","))
-			ctx, cancel := context.WithTimeout(context.Background(), rpcTimeout)
+			ctx, cancel := context.WithTimeout(context.Background(), pbt.Bound(rpcTimeout))
 			call := time.Now()
 			resp, err := cr.e.cl.Delete(ctx, &hydrapb.DeleteRequest{Swamps: []*hydrapb.DeleteRequest_SwampKeys{{IslandID: cr.island, SwampName: cr.sw, Keys: keys}}})
 			ret := time.Now()
@@ -342,7 +346,7 @@ func (cr *caseRun) writer(w int, prog []C19Op) {
 				keys = append(keys, keyName(k))
 			}
 			name = fmt.Sprintf("shift(%s)", strings.Join(keys, ","))
-			ctx, cancel := context.WithTimeout(context.Background(), rpcTimeout)
+			ctx, cancel := context.WithTimeout(context.Background(), pbt.Bound(rpcTimeout))
 			call := time.Now()
 			resp, err := cr.e.cl.ShiftByKeys(ctx, &hydrapb.ShiftByKeysRequest{IslandID: cr.island, SwampName: cr.sw, Keys: keys})
 			ret := time.Now()
@@ -362,7 +366,7 @@ func (cr *caseRun) writer(w int, prog []C19Op) {
 				cr.addChange(&change{Writer: w, Seq: seq, Op: name, Key: t.GetKey(), Kind: chDelete, Call: call, Ret: ret})
 			}
 		case "get":
-			ctx, cancel := context.WithTimeout(context.Background(), rpcTimeout)
+			ctx, cancel := context.WithTimeout(context.Background(), pbt.Bound(rpcTimeout))
 			_, err := cr.e.cl.Get(ctx, &hydrapb.GetRequest{Swamps: []*hydrapb.GetSwamp{{IslandID: cr.island, SwampName: cr.sw, Keys: []string{key}}}})
 			cancel()
 			if err != nil && status.Code(err) == codes.DeadlineExceeded {
@@ -692,6 +696,8 @@ func runC19(s C19Scenario, o runOpts) (out pbt.Outcome) {
 	}
 	if s.InMem {
 		cr.sw = fmt.Sprintf("c19m/p%d/c%d", os.Getpid(), n)
+	} else if s.Immediate {
+		cr.sw = fmt.Sprintf("c19z/p%d/c%d", os.Getpid(), n)
 	} else {
 		cr.sw = fmt.Sprintf("c19p/p%d/c%d", os.Getpid(), n)
 	}
@@ -715,7 +721,7 @@ func runC19(s C19Scenario, o runOpts) (out pbt.Outcome) {
 	if s.Anchor {
 		cr.doSet(99, 0, "anchor", "~anchor", value{T: "anchor", U: "anchor"}, true)
 	}
-	if s.Persisted && !s.InMem {
+	if s.Persisted && !s.InMem && !s.Immediate {
 		for k := 0; k < s.NKeys; k++ {
 			cr.doSet(98, k, "preload", keyName(k), value{T: "pre", U: fmt.Sprintf("pre%d", k)}, true)
 		}
@@ -764,7 +770,7 @@ func runC19(s C19Scenario, o runOpts) (out pbt.Outcome) {
 
 	// clean up the swamp of this case
 	func() {
-		ctx, cancel := context.WithTimeout(context.Background(), rpcTimeout)
+		ctx, cancel := context.WithTimeout(context.Background(), pbt.Bound(rpcTimeout))
 		defer cancel()
 		e.cl.Destroy(ctx, &hydrapb.DestroyRequest{IslandID: cr.island, SwampName: cr.sw})
 	}()
@@ -978,10 +984,16 @@ func classesOf(s C19Scenario, cr *caseRun, wins []*subWindow, fired int) []strin
 	if s.SoloAttach == "" {
 		add("attach-concurrent-with-writes")
 	}
-	if s.InMem {
+	switch {
+	case s.InMem:
 		add("in-memory-swamp")
-	} else {
+	case s.Immediate:
+		add("immediate-write-swamp")
+	default:
 		add("persistent-swamp")
+	}
+	if overlapWhileAttached(cr, wins, true) && s.Immediate && !s.InMem {
+		add("overlap-same-record-while-attached-immediate-write")
 	}
 	if fired > 0 {
 		add("perturbation-fired")
